@@ -102,6 +102,9 @@ structure CurveOracle.Lawful (o : CurveOracle) : Prop where
 /-- the point list has an on-curve point -/
 def hasOn (l : List Point) : Bool := l.any Point.onCurve
 
+/-- every point is an on-curve point (an outline of straight lines) -/
+def allOn (pts : List Point) : Bool := pts.all Point.onCurve
+
 /-- no `move` after the first point -/
 def noInnerMove : List Point → Bool
   | [] => true
